@@ -68,6 +68,9 @@ type c13bPlan struct {
 	Rounds [][][]c13bOp    `json:"rounds"` // round -> task -> ops; a pull follows every round
 	Batch  []int           `json:"batch"`  // rows per changes message, per pull
 	Faulty bool            `json:"faulty"`
+	// Continuous: one continuous subscription stays open over all rounds (instead of a one-shot pull per round); what
+	// has arrived on it is judged at rest after every round
+	Continuous bool `json:"continuous,omitempty"`
 }
 
 var c13bChans = []string{"A", "B", "C"}
@@ -142,6 +145,20 @@ func c13bGenerate(seed uint64, tier string, index int) json.RawMessage {
 		p.Cfg.MaxFaults = r.Range(1, 3)
 		p.Cfg.FaultPermille = map[string]int{simstore.AltCasMiss: 60}
 	}
+	p.Continuous = index%4 >= 2
+	if index%8 == 6 {
+		// directed (continuous): the user sees a document through two channels, loses one of them, then the document
+		// leaves the other one
+		p.Continuous = true
+		two := [][]string{{"A", "B"}, {"A", "C"}, {"B", "C"}}[r.Intn(3)]
+		d := r.Intn(4)
+		p.Rounds = [][][]c13bOp{
+			{{{Kind: "user", Name: "alice", Chans: two}, {Kind: "doc", Doc: d, Chans: two}}},
+			{{{Kind: "user", Name: "alice", Chans: two[:1]}}, {{Kind: "doc", Doc: (d + 1) % 4, Chans: two[:1]}}},
+			{{{Kind: "doc", Doc: d, Chans: two[1:]}}, {{Kind: "doc", Doc: (d + 2) % 4, Chans: two[:1]}}},
+		}
+		p.Batch = []int{200, 200, 200}
+	}
 	return mustJSON(p)
 }
 
@@ -185,7 +202,7 @@ type c13bPull struct {
 	cancel   context.CancelCauseFunc
 }
 
-func c13bConnect(user, since string, batch int, gen int) (*c13bPull, error) {
+func c13bConnect(user, since string, batch int, gen int, continuous bool) (*c13bPull, error) {
 	pl := &c13bPull{revs: map[string]string{}, revDel: map[string]bool{}}
 	cancelCtx, cancel := context.WithCancelCause(context.Background())
 	_, bctx, err := db.NewSGBlipContext(context.Background(), fmt.Sprintf("c13b-%s-%d", user, gen), nil, cancelCtx)
@@ -282,7 +299,7 @@ func c13bConnect(user, since string, batch int, gen int) (*c13bPull, error) {
 	pl.sender = sender
 	sub := blip.NewRequest()
 	sub.SetProfile(db.MessageSubChanges)
-	sub.Properties[db.SubChangesContinuous] = "false"
+	sub.Properties[db.SubChangesContinuous] = fmt.Sprint(continuous)
 	sub.Properties[db.SubChangesSince] = since
 	sub.Properties[db.SubChangesBatch] = fmt.Sprint(batch)
 	sub.Properties[db.SubChangesRevocations] = "true"
@@ -424,6 +441,8 @@ func c13bRun(env *verifsim.Env, raw json.RawMessage) *verifsim.Violation {
 	plain := map[string]string{} // the plain replica: doc -> revision-tree id
 	proto := map[string]string{} // the protocol replica: doc -> revision as the rev message named it
 	since := "0"
+	var cpl *c13bPull // the continuous subscription (continuous plans)
+	judged := 0
 	taskSeq := 0
 	for rd, tasks := range p.Rounds {
 		s.SetFaultsEnabled(true)
@@ -445,39 +464,92 @@ func c13bRun(env *verifsim.Env, raw json.RawMessage) *verifsim.Violation {
 			return budget(err, fmt.Sprintf("settling after round %d", rd))
 		}
 		// the pull
-		var pl *c13bPull
-		var cerr2 error
-		s.Spawn(fmt.Sprintf("pull%d", rd), "client", func(t *verifsim.Task) {
-			rec := t.Begin("pull", since)
-			pl, cerr2 = c13bConnect("alice", since, p.Batch[rd], rd)
-			rec.End(nil, cerr2)
-		})
-		if err := s.DriveAll(); err != nil {
-			return budget(err, "connecting")
-		}
-		if cerr2 != nil {
-			panic(fmt.Sprintf("pull %d cannot connect: %v", rd, cerr2))
-		}
-		done := false
-		for i := 0; i < 80 && !done; i++ {
-			if err := s.Settle(250*time.Millisecond, 50*time.Millisecond); err != nil {
-				pl.close()
-				return budget(err, fmt.Sprintf("pull %d", rd))
+		var rows []c13bRow
+		var revs map[string]string
+		var revDel map[string]bool
+		if p.Continuous {
+			// one continuous subscription over all rounds: what arrived since the last judgement
+			if cpl == nil {
+				var cerr2 error
+				s.Spawn("subscribe", "client", func(t *verifsim.Task) {
+					rec := t.Begin("subscribe", nil)
+					cpl, cerr2 = c13bConnect("alice", "0", p.Batch[rd], 0, true)
+					rec.End(nil, cerr2)
+				})
+				if err := s.DriveAll(); err != nil {
+					return budget(err, "connecting")
+				}
+				if cerr2 != nil {
+					panic(fmt.Sprintf("cannot subscribe: %v", cerr2))
+				}
+				defer cpl.close()
+			}
+			stable, last := 0, -1
+			for i := 0; i < 80 && stable < 3; i++ {
+				if err := s.Settle(250*time.Millisecond, 50*time.Millisecond); err != nil {
+					return budget(err, fmt.Sprintf("continuous feed after round %d", rd))
+				}
+				cpl.mu.Lock()
+				quiet := cpl.answered >= cpl.wanted && w.net.Pending() == 0 && len(cpl.rows) == last
+				last = len(cpl.rows)
+				cpl.mu.Unlock()
+				if quiet {
+					stable++
+				} else {
+					stable = 0
+				}
+			}
+			if stable < 3 {
+				return verifsim.Vf("C13", "pull-incomplete", "replication protocol: the continuous feed did not come to rest within 20 simulated seconds after round %d", rd)
+			}
+			cpl.mu.Lock()
+			rows = append([]c13bRow(nil), cpl.rows[judged:]...)
+			judged = len(cpl.rows)
+			revs, revDel = map[string]string{}, map[string]bool{}
+			for k, v := range cpl.revs {
+				revs[k] = v
+			}
+			for k, v := range cpl.revDel {
+				revDel[k] = v
+			}
+			cpl.mu.Unlock()
+			s.Probe("c13b.continuous-round-judged")
+		} else {
+			var pl *c13bPull
+			var cerr2 error
+			s.Spawn(fmt.Sprintf("pull%d", rd), "client", func(t *verifsim.Task) {
+				rec := t.Begin("pull", since)
+				pl, cerr2 = c13bConnect("alice", since, p.Batch[rd], rd, false)
+				rec.End(nil, cerr2)
+			})
+			if err := s.DriveAll(); err != nil {
+				return budget(err, "connecting")
+			}
+			if cerr2 != nil {
+				panic(fmt.Sprintf("pull %d cannot connect: %v", rd, cerr2))
+			}
+			done := false
+			for i := 0; i < 80 && !done; i++ {
+				if err := s.Settle(250*time.Millisecond, 50*time.Millisecond); err != nil {
+					pl.close()
+					return budget(err, fmt.Sprintf("pull %d", rd))
+				}
+				pl.mu.Lock()
+				done = pl.ended && pl.answered >= pl.wanted && w.net.Pending() == 0
+				pl.mu.Unlock()
 			}
 			pl.mu.Lock()
-			done = pl.ended && pl.answered >= pl.wanted && w.net.Pending() == 0
+			ended, wanted, answered := pl.ended, pl.wanted, pl.answered
+			rows = append([]c13bRow(nil), pl.rows...)
+			revs, revDel = pl.revs, pl.revDel
 			pl.mu.Unlock()
-		}
-		pl.mu.Lock()
-		rows, ended, wanted, answered := append([]c13bRow(nil), pl.rows...), pl.ended, pl.wanted, pl.answered
-		revs, revDel := pl.revs, pl.revDel
-		pl.mu.Unlock()
-		pl.close()
-		if err := s.Settle(100*time.Millisecond, 50*time.Millisecond); err != nil {
-			return budget(err, "closing the pull's connection")
-		}
-		if !done {
-			return verifsim.Vf("C13", "pull-incomplete", "replication protocol: pull %d from %s did not complete within 20 simulated seconds (end of feed seen: %v, revisions asked for %d, answered %d, rows %d)", rd, since, ended, wanted, answered, len(rows))
+			pl.close()
+			if err := s.Settle(100*time.Millisecond, 50*time.Millisecond); err != nil {
+				return budget(err, "closing the pull's connection")
+			}
+			if !done {
+				return verifsim.Vf("C13", "pull-incomplete", "replication protocol: pull %d from %s did not complete within 20 simulated seconds (end of feed seen: %v, revisions asked for %d, answered %d, rows %d)", rd, since, ended, wanted, answered, len(rows))
+			}
 		}
 		s.Probe("c13b.pull-completed")
 		var vio *verifsim.Violation
@@ -567,7 +639,16 @@ func c13bRun(env *verifsim.Env, raw json.RawMessage) *verifsim.Violation {
 					}
 				}
 			}
+			// (rows arrive in order: a revocation that a later row of the same batch supersedes - the document came back
+			// into the user's view - is judged by that later row)
+			lastFlags := map[string]int{}
+			for _, r := range rows {
+				lastFlags[r.id] = r.flags
+			}
 			for _, id := range revokedRows {
+				if lastFlags[id]&2 == 0 {
+					continue
+				}
 				if _, ok := want[id]; ok {
 					vio = verifsim.Vf("C13", "revoked-but-visible", "replication protocol: pull %d sent a revocation for %s, a document the user can still fetch", rd, id)
 					return
